@@ -27,6 +27,8 @@ package ext
 //@   requires rs.contentLength == -1 ==> rs.trailer != nil
 //@   modifies *, rs.reader.pos, rs.reader.avail, rs.reader.failed, rdTrailerOK
 //@   ensures old(rs.contentLength) == -1 ==> rs.chunkLeft >= 0
+//@   top-ensures @C14 old(rs.contentLength) == -1 && old(rs.chunkLeft) > 0 ==> 0 <= n && n <= len(p) && n <= old(rs.chunkLeft) && rs.chunkLeft == old(rs.chunkLeft) - n
+//@   top-ensures @C14 old(rs.contentLength) == -1 && old(rs.chunkEOF) ==> n == 0 && err != nil && rs.reader.pos == old(rs.reader.pos)
 //@   assert @C14 before ParseChunkSize: rs.chunkLeft == 0
 //@   ghostset-at-entry rdTrailerOK = false
 //@   ghostset after ReadTrailer: rdTrailerOK = (result == nil)
